@@ -5,6 +5,8 @@ import (
 	"crypto/sha256"
 	"encoding/hex"
 	"fmt"
+	"io"
+	"log"
 	"os"
 	"path/filepath"
 	"sort"
@@ -27,6 +29,7 @@ func Register(name string, fn func(repo string) (string, error)) {
 // Run regenerates every Gen file into dir; a file is rewritten only when its content changed and files
 // this run did not produce are deleted. Returns file name -> sha256.
 func Run(repo, dir string) (map[string]string, error) {
+	log.SetOutput(io.Discard)
 	if err := os.MkdirAll(dir, 0o755); err != nil {
 		return nil, err
 	}
